@@ -59,7 +59,7 @@ def _b2b():
                 mx = min(255, 4096 // (1 << size) - 1)
                 lq = sorted({l for l in QUICK_LENS + [mx] if l <= mx})
                 B2B[f"AXIBurst2Beat[INCR,size={size},bus={bus}bit]"] = (
-                    tier, dict(burst=bt, size=size, lens_q=lq, lens_t=list(range(0, mx + 1)) if size <= 3 else lq))
+                    "quick" if size == 4 else tier, dict(burst=bt, size=size, lens_q=lq, lens_t=list(range(0, mx + 1)) if size <= 3 else lq))
             else:
                 B2B[f"AXIBurst2Beat[FIXED,len<=15,size={size},bus={bus}bit]"] = (tier, dict(burst=bt, size=size, lens_q=list(range(16)), lens_t=list(range(16))))
                 B2B[f"AXIBurst2Beat[FIXED,len>15,size={size},bus={bus}bit]"] = (
